@@ -8,7 +8,7 @@
    The closed-form bound on the whole run (phase ranking over the two limit rounds) is not
    mechanised; it is exercised on model and code by the idle-drive runs of the correspondence. *)
 From CFDP Require Import Base.Prelude Model.Segments Model.Timer Model.TxTypes Model.Recv Model.Send
-  Proofs.TimerP Proofs.RecvInv Proofs.SendP Proofs.NoSpinP.
+  Proofs.TimerP Proofs.RecvInv Proofs.SendP Proofs.NoSpinP Proofs.SendArmP Proofs.RecvArmP.
 
 (* Receiver: the invariant "active => inactivity timer running" holds initially and is kept by
    every operation; hence an active receive transaction always has a finite next deadline. *)
@@ -76,6 +76,20 @@ Example C03_nonvacuous :
   SL s /\ s_state s = TActive /\ s_has_pdu_to_send s = true.
 Proof. cbn zeta. split; [apply SL_init|split; reflexivity]. Qed.
 
+(* (4) the send arm never spins: whenever has_pdu_to_send enables it (in ANY state, no invariant
+   needed), one run of send_pdu makes progress - the sender emits at least one PDU or indication or
+   consumes one queued retransmission request; the receiver emits at least one PDU or indication
+   (ACK(EOF), Keep Alive, NAK, Finished - or the NAK-limit fault). The select! loop takes the send
+   arm whenever it is enabled, so an enabled arm that did nothing would never let the task wait. *)
+Theorem C03_sender_send_arm_progress : forall cksum resp_len req_len now s,
+  s_has_pdu_to_send s = true ->
+  let s' := fst (s_send_pdu cksum resp_len req_len now s) in
+  (length (s_out s) < length (s_out s'))%nat \/ (length (s_naks s') < length (s_naks s))%nat.
+Proof. exact s_send_arm_progress. Qed.
+Theorem C03_receiver_send_arm_progress : forall FS resp_len req_len now (s : rstate FS),
+  has_pdu_to_send s = true -> (length (r_out s) < length (r_out (send_pdu resp_len req_len now s)))%nat.
+Proof. exact r_send_arm_progress. Qed.
+
 Print Assumptions C03_receiver_invariant.
 Print Assumptions C03_receiver_initial.
 Print Assumptions C03_receiver_never_stuck.
@@ -89,3 +103,5 @@ Print Assumptions C03_receiver_no_spin.
 Print Assumptions C03_sender_timers_invariant.
 Print Assumptions C03_sender_timers_initial.
 Print Assumptions C03_sender_no_spin.
+Print Assumptions C03_sender_send_arm_progress.
+Print Assumptions C03_receiver_send_arm_progress.
